@@ -73,7 +73,7 @@ P = {
   ref="5/C13"),
  "C14": dict(
   technique="runtime monitor: week blocks of every month x 7 starts against a weekday-arithmetic oracle",
-  text="All civil months x 7 starts x all indices, date->week membership, stepping, index in year; lunar months sampled (quick) or 10% of years (thorough).",
+  text="All civil months x 7 starts x all indices, date->week membership, stepping, index in year; lunar months sampled (quick) or 25% of years (thorough).",
   note="Weekday = (N+1) mod 7 on the harness day number.",
   ref="5/C14"),
  "C15": dict(
